@@ -193,7 +193,7 @@ def start_table(R, ctx):
                 if not c:
                     bad = f"{fn_} is not called"
                     continue
-                flag = eff_arg(f, c[0], 'rotate_rcurrent', r'^bool$')
+                flag = c01.rotate_flag_arg(ctx, c[0])
                 given = eff_arg(f, c[0], 'o_index_for_rcurrent', r'^std::option::Option<u32>$') if nm == 'Numbers' else eff_arg(f, c[0], 'o_date_for_rotated_file', r'^std::option::Option<&')
                 # rotate flag = !config.append (as a decided boolean)
                 if app is None or flag != str(not app):
@@ -238,7 +238,7 @@ def start_table(R, ctx):
         for e in r.effects:
             if e[0].endswith('index_for_rcurrent'):
                 n += 1
-                a_flag, a_idx = eff_arg(f, e, 'rotate_rcurrent', r'^bool$'), eff_arg(f, e, 'o_index_for_rcurrent', r'^std::option::Option<u32>$')
+                a_flag, a_idx = c01.rotate_flag_arg(ctx, e), eff_arg(f, e, 'o_index_for_rcurrent', r'^std::option::Option<u32>$')
                 if a_flag != 'True' or 'Some' not in a_idx:
                     bad = f"index_for_rcurrent({a_idx}, {a_flag}) at rotation; documented (Some(stored index), true)"
             if e[0].endswith('creation_timestamp_of_currentfile'):
